@@ -30,4 +30,13 @@ theorem src_ctx_enter_is_model : type_of% @Proofs.EngineLogicTie.ctxEnter_uses_s
 /-- `__exit__` of both contexts restores `prev` (also when leaving by exception: same method) -/
 theorem src_ctx_exit_is_model : type_of% @Proofs.EngineLogicTie.ctxExit_uses_src := @Proofs.EngineLogicTie.ctxExit_uses_src
 
+/-- `a += b` dispatches to the binary operator (Tensor defines no in-place operator method): the flag rule covers augmented statements -/
+theorem src_no_inplace_operator : type_of% @Proofs.EngineLogicTie.tensor_defines_no_inplace_operator := @Proofs.EngineLogicTie.tensor_defines_no_inplace_operator
+
+/-- no attribute hook or `__new__` bypasses the flag setters -/
+theorem src_no_attribute_hook : type_of% @Proofs.EngineLogicTie.tensor_defines_no_attribute_hook := @Proofs.EngineLogicTie.tensor_defines_no_attribute_hook
+
+/-- `nn.Parameter` is created by `Tensor.__init__`: the creation rule applies to parameters -/
+theorem src_parameter_created_by_tensor_init : type_of% @Proofs.EngineLogicTie.parameter_is_created_by_tensor_init := @Proofs.EngineLogicTie.parameter_is_created_by_tensor_init
+
 end Props.C07
